@@ -468,6 +468,11 @@ class Program:
                     if len(node.args) == 3:
                         return f(node.args[2])
                 raise CannotFold(f"getattr not foldable: {unparse(node)[:60]}")
+            if cname in ("min", "max") and node.args and not node.keywords:
+                try:
+                    return {"min": min, "max": max}[cname](*[f(a) for a in node.args])
+                except (TypeError, ValueError):
+                    raise CannotFold(f"{cname} not foldable: {unparse(node)[:60]}")
             if cname in ("any", "all", "sum") and len(node.args) == 1 and not node.keywords:
                 return {"any": any, "all": all, "sum": sum}[cname](f(node.args[0]))
             if cname == "re.escape" and len(node.args) == 1:
